@@ -137,7 +137,8 @@ def _create_outside_package_class(
     module_dir = Path(out_path / module_path)
     module_dir.mkdir(parents=True, exist_ok=True)
 
-    file_path = Path(module_dir / f"{module_name}.sdsstub")
+    # Like the stub files of the package's own modules, the file has no leading underscores in its name
+    file_path = Path(module_dir / f"{module_name.lstrip('_')}.sdsstub")
     if Path.exists(file_path) and not first_creation:
         with file_path.open("a", encoding="utf-8") as f:
             f.write(_create_outside_package_class_text(class_name, naming_convention))
